@@ -392,10 +392,10 @@ def pen_width_roundtrip(nseg):
 # ------------------------------------------------------------------- byte code round trip
 @kernel('C12', funcs=['misc/psCharStrings.py:T2CharString.compile', 'misc/psCharStrings.py:T2CharString.decompile', 'misc/psCharStrings.py:encodeFixed',
                        'misc/psCharStrings.py:getIntEncoder.<locals>.encodeInt', 'misc/psCharStrings.py:T2CharString.getToken', 'misc/psCharStrings.py:SimpleT2Decompiler.execute'],
-        bounds='program rmoveto + rlineto (+ rrcurveto) with symbolic INTEGER operands in [-32768, 32767] (each operand size class is a fork): '
+        bounds='program rmoveto + rlineto (2 or 4 operands) or one rrcurveto, at most 6 symbolic INTEGER operands in [-32768, 32767] (each operand size class is a fork, 5 classes per operand; 8 operands exceeded the path budget and are outside the claim): '
                'compile -> decompile returns the same program and draws the same points',
         shims=['struct', 'bytechr', 'byteord', 'bytesjoin', 'SLookup(t2OperandEncoding)'],
-        quick=[dict(shape=[['rmoveto', 2], ['rlineto', 2]])], thorough=[dict(shape=[['rmoveto', 2], ['rlineto', 2]]), dict(shape=[['rmoveto', 2], ['rrcurveto', 6]])],
+        quick=[dict(shape=[['rmoveto', 2], ['rlineto', 2]])], thorough=[dict(shape=[['rmoveto', 2], ['rlineto', 2]]), dict(shape=[['rmoveto', 2], ['rlineto', 4]]), dict(shape=[['rrcurveto', 6]])],
         max_paths=100000)
 def bytecode_roundtrip_int(shape):
     prog = []
